@@ -145,7 +145,10 @@ func CompareValues(left r.Element, right r.Element, verb uint8) (bool, error) {
 			if len(vl.value) != len(vr.value) {
 				return false, nil
 			}
-			// cmp each item (by the order of keys to yield a stable result)
+			// cmp each item: an entry that differs decides wherever it stands, an entry that
+			// cannot be compared is an error only when no other entry differs (the answer must
+			// not depend on the order the entries were inserted in)
+			var cmpErr error
 			for _, idx := range vl.keyOrder {
 				// ensure the key exists on vr
 				vrr, ok := vr.value[idx]
@@ -154,12 +157,17 @@ func CompareValues(left r.Element, right r.Element, verb uint8) (bool, error) {
 				}
 				cmpVal, err := CompareValues(vl.value[idx], vrr, CmpEq)
 				if err != nil {
-					return false, err
+					if cmpErr == nil {
+						cmpErr = err
+					}
+					continue
 				}
-				// break the loop only when cmpVal = false
 				if !cmpVal {
 					return false, nil
 				}
+			}
+			if cmpErr != nil {
+				return false, cmpErr
 			}
 			return true, nil
 		}
